@@ -13,7 +13,7 @@ RULE = (
     "gen_prog programs (with and without macros in the same file) rich in Position<...> literals: in routine bodies, "
     "macro bodies, macro-call arguments, switch operation headers and operation conditions, several per line, spread "
     "over several lines by the drawn layout (separators and comments between the tokens of a literal), both quote "
-    "styles, integer / .5 / .50 / .0 number spellings, unique names. Oracle: PositionMarkVisitor().visit(tree) equals "
+    "styles, integer / .5 / .50 / .0 number spellings, unique names (identifier-like, or with blanks, quote characters, an escaped line break, comment openers, non-ASCII letters). Oracle: PositionMarkVisitor().visit(tree) equals "
     "the renderer's record: count, source order, zero-based line/column of the word Position, line/column of the "
     "closing '>', name, tiles, half-tile flags; the values equal the compiled parameter of that name. Metamorphic: "
     "replace exactly the reported span of one drawn literal by str() of an edited mark and recompile: only parameters "
@@ -40,7 +40,10 @@ def marked_programs(draw):
         lst = lists[draw(st.integers(0, len(lists) - 1))]
         args = []
         for j in range(draw(st.integers(1, 3))):
-            args.append({"t": "pos", "name": f"x{k}_{j}", "x": draw(st.integers(-5, 90)), "xh": draw(st.booleans()),
+            # names are string literals: blanks, both quote characters, a line break (spelled as an escape), comment
+            # openers and non-ASCII letters are legitimate in them
+            deco = draw(st.sampled_from(["", "", "", " gate", ' the "old" one', " it's", " \u00e9\u65e5", "\nsecond line", " a//b /*c", " {x} <y>, 1.5"]))
+            args.append({"t": "pos", "name": f"x{k}_{j}" + deco, "x": draw(st.integers(-5, 90)), "xh": draw(st.booleans()),
                          "y": draw(st.integers(-5, 90)), "yh": draw(st.booleans())})
             if draw(st.booleans()):
                 args.append({"t": "int", "v": draw(st.integers(0, 9))})
